@@ -286,6 +286,66 @@ def controller(cx, cls="rk45", reverse=False, npoints=3, schedule=(0.5, 0.5)):
     return "%d attempts" % n_attempts
 
 
+def controller_scale(cx, cls="rk45", reverse=False, atol=1.0, rtol=0.5):
+    """accept/reject decision of one controller step (_single_step of the real solver object, set up through its own setup()
+    on a symbolic initial condition) started from an ARBITRARY symbolic state that is not the initial condition; the raw
+    error estimate of the first attempt is an arbitrary positive symbol.  The real code divides by its tolerance scale and
+    compares with 1 (this forks in the explorer).  Claim: accepted <=> estimate < atol + rtol*max(|y at the start of THIS
+    step|, |y_new|); a rejected attempt is retried from the same state with a step of at least min_factor times the rejected one
+    (that it is also shorter needs monotonicity of x**p, which the uninterpreted power does not have: not claimed)."""
+    solver_cls = {"rk45": ark.RK45, "rk23": ark.RK23}[cls]
+    c00, c01, c10 = 0.5, -0.75, 0.25
+    sgn = -1 if reverse else 1
+    ts = cx.const(torch.tensor([0.25, 0.25 + sgn * 4.0], dtype=torch.float64))
+    yinit = cx.sym("yinit", (1,), lo=-4, hi=4)
+    ystart = cx.sym("ystart", (1,), lo=-4, hi=4)
+    e0 = cx.scalar("e0", lo=0.125, hi=4, positive=True)
+
+    def fwrap(t, y):
+        return c00 + c01 * y + c10 * t
+    log = {"calls": 0, "attempts": []}
+    orig_norm = solver_cls._error_norm
+    orig_step = ark.rk_step
+
+    def fake_norm(self, K, h):
+        k = log["calls"]
+        log["calls"] += 1
+        if k >= 8:
+            raise symtorch.PathAbort("more than 8 step attempts")
+        return (h * 0 + 1) * (e0 if k == 0 else atol * 0.125)   # later attempts: estimate < atol <= scale, always accepted
+
+    def logged_step(func, t, y, f, h, abck):
+        ynew, fnew = orig_step(func, t, y, f, h, abck)
+        log["attempts"].append((y, y.clone(), ynew.clone(), h.clone()))
+        return ynew, fnew
+    solver = solver_cls(atol=atol, rtol=rtol)
+    solver.setup(fwrap, ts, yinit, ())
+    tstart = solver.ts[0] + 0.5
+    t1 = solver.ts[1]
+    h = cx.const(torch.tensor(0.25, dtype=torch.float64))
+    solver_cls._error_norm = fake_norm
+    ark.rk_step = logged_step
+    try:
+        with torch.no_grad():
+            (fnew, tnew, ynew, hnew), achieved = solver._single_step((solver.func(tstart, ystart), tstart, ystart, h), t1)
+    finally:
+        solver_cls._error_norm = orig_norm
+        ark.rk_step = orig_step
+    att = log["attempts"]
+    yobj, y, yn, h0 = att[0]
+    accepted = len(att) == 1
+    scale = atol + torch.max(y.norm(), yn.norm()) * rtol
+    cx.claim_eq("the step starts from the state it was given", y, ystart)
+    if accepted:
+        cx.claim("accepted => estimate < atol + rtol*max(|y_start|,|y_new|)", e0 < scale)
+    else:
+        cx.claim("rejected => estimate >= atol + rtol*max(|y_start|,|y_new|)", e0 >= scale)
+        cx.claim_true("a rejected attempt is retried from the same state", att[1][0] is yobj)
+        cx.claim("the retry step is at least min_factor times the rejected one", att[1][3] >= h0 * 0.2)
+    cx.claim_eq("returned state is the last attempt's", ynew, att[-1][2])
+    return "%d attempts, %s" % (len(att), "accepted" if accepted else "rejected")
+
+
 def tuple_state(cx, method="rk4"):
     """a list-of-tensors state gives the same result as the concatenated tensor state"""
     A = cx.sym("A", (2, 2))
@@ -333,6 +393,9 @@ def configs(tier):
             add("controller/%s/increasing/%s" % (cls, nm), controller, cls=cls, schedule=sch)
         add("controller/%s/decreasing/reject_second_interval" % cls, controller, cls=cls, reverse=True,
             schedule=schedules["reject_second_interval"])
+    for cls in ("rk45", "rk23"):
+        add("controller_scale/%s/increasing" % cls, controller_scale, cls=cls, opts={"max_paths": 60, "budget_s": 200})
+    add("controller_scale/rk45/decreasing", controller_scale, cls="rk45", reverse=True, opts={"max_paths": 60, "budget_s": 200})
     add("tuple_state/rk4", tuple_state, method="rk4")
     add("tuple_state/euler", tuple_state, method="euler")
     if tier == "thorough":
